@@ -663,6 +663,69 @@ func TestLongChains(t *testing.T) {
 // TestRelink: the exported linker is given a set in which some scripts come from an earlier load (kept in memory)
 // and one script of the chain was replaced by a newly loaded version of the same name. Every use call of the set
 // that was linked is bound to the script of that name in that set: running the root executes the new version.
+// TestIdenticalTexts: several scripts of one set have byte-identical texts (copies under other names, in other
+// directories): each is judged and reported under its own name - a parse error, a check error, a missing callee, a
+// cycle through itself.
+func TestIdenticalTexts(t *testing.T) {
+	texts := []struct {
+		src    string
+		reject bool
+	}{
+		{"x = = 1", true}, {"y = 1\nz = \"unterminated", true}, {"a b\nc = 1 $ 2", true}, {"y = 2\nnosuch()", true}, {"x = len(len(nosuch()))", true}, {"use(\"missing.p\")", true},
+		{"x = 1\nbreak", true}, {"add_key(k, 1)", false}, {"use(\"ok.p\")", false}, {"x = 1\nuse(\"bad.p\")", true},
+	}
+	names := [][]string{{"a.p", "b.p"}, {"logging/nginx.p", "metric/nginx.p", "nginx.p"}, {"one.p", "two.p", "three.p", "four.p"}}
+	n := 0
+	for ti, tx := range texts {
+		for ni, ns := range names {
+			for rep := 0; rep < 4; rep++ {
+				set := map[string]string{"ok.p": "add_key(ok, 1)", "bad.p": "nosuch2()"}
+				for _, nm := range ns {
+					set[nm] = tx.src
+				}
+				ok, errs, crash := impl.LoadV1(set, call, check)
+				rp := map[string]any{"scripts": set}
+				if crash != nil {
+					rk.Fail(t, "identical", rp, "ParseScript panicked: %s", crash.Value)
+				}
+				for _, nm := range ns {
+					e, bad := errs[nm]
+					if bad != tx.reject || (ok[nm] != nil) == tx.reject {
+						rk.Fail(t, "identical", rp, "script %s (text %q, one of %d copies): rejected=%v, want %v", nm, tx.src, len(ns), bad, tx.reject)
+					}
+					if !bad {
+						continue
+					}
+					pe := impl.PlErr(e)
+					if pe == nil || len(pe.PosChain) == 0 {
+						rk.Fail(t, "identical", rp, "script %s: rejection without positions: %v", nm, e)
+					}
+					if last := pe.PosChain[len(pe.PosChain)-1]; last.File != nm {
+						rk.Fail(t, "identical", rp, "script %s is reported with an error whose outermost position is in %s (the set holds %d scripts with this text)\nerror: %v", nm, last.File, len(ns), e)
+					}
+					if first := pe.PosChain[0]; first.File != nm && first.File != "bad.p" {
+						rk.Fail(t, "identical", rp, "script %s is reported with an error that starts in %s\nerror: %v", nm, first.File, e)
+					}
+					for _, other := range ns {
+						if other != nm && len(other) > 3 && strings.Contains(e.Error(), other+":") && !strings.Contains(nm, other) {
+							rk.Fail(t, "identical", rp, "the error of script %s mentions its namesake %s\nerror: %v", nm, other, e)
+						}
+					}
+					// an error value belongs to one script: extending one script's error leaves the others' alone
+					for _, other := range ns {
+						if other != nm && errs[other] == e {
+							rk.Fail(t, "identical", rp, "scripts %s and %s share one error value", nm, other)
+						}
+					}
+				}
+				evid.Case(fmt.Sprintf("identical/%d/%d/%d", ti, ni, rep), true, "identical-texts")
+				n++
+			}
+		}
+	}
+	evid.Exhaustive("text (unparsable, check-failing, missing callee, valid) x number of copies x repeated loads", n)
+}
+
 func TestRelink(t *testing.T) {
 	rk.Check(t, "relink", 11, evid.Scale(400, 4000), func(t *rapid.T) {
 		n := rapid.IntRange(2, 6).Draw(t, "n")
